@@ -615,5 +615,61 @@ def setup():
 
 
 def replay(path):
-    print("replay not implemented yet")
+    """re-run exactly the recorded witness: runtime kinds re-execute the input, compile kinds re-compile the program"""
+    with open(path) as f:
+        w = json.load(f)
+    prop, kind = w["property"], w.get("kind", "runtime")
+    print("replaying %s witness %s (decl %s, signature %s)" % (kind, path, w.get("decl_id"), w.get("signature")))
+    if kind == "runtime":
+        did = (w["decl_id"] or "").split(":")[-1]
+        if not w.get("module_text"):
+            print("witness carries no module text (cross-declaration witness): re-run the check instead")
+            return 2
+        ws = cratebuild.Workspace("replay")
+        ok, quarantined, info = cratebuild.build_workspace(ws, [(did, w["module_text"])], cratebuild.ALL_FEATURES, log=log)
+        if not ok or quarantined:
+            print("INCONCLUSIVE property=%s reason=replay workspace does not build: %s" % (prop, json.dumps(info)[:500] + json.dumps(quarantined)[:500]))
+            return 2
+        mon = {"C02": "C01"}.get(prop, prop)
+        sig = w.get("signature", "")
+        if prop == "C02" and "Default:" in sig or "TryFrom" in sig and prop == "C02":
+            mon = "C03"
+        reports, failures, dt = cratebuild.run_monitor(ws, mon, w.get("tier", "quick"), w.get("seed", 0), os.path.join(ws.dir, "out"), only=did,
+                                                       only_input=w.get("input"))
+        n = 0
+        for r in reports:
+            for v in r["violations"]:
+                n += 1
+                print("REPRODUCED signature=%s input=%s observed=%s expected=%s" % (v["signature"], v["input"], v["observed"], v["expected"]))
+        for fl in failures:
+            print("monitor failure: %s" % json.dumps(fl)[:400])
+        if n:
+            print("VIOLATION property=%s replay=%s" % (prop, path))
+            return 1
+        print("not reproduced on the current tree (executions: %d)" % sum(r["executions"] for r in reports))
+        return 0
+    if kind in ("compile", "expansion"):
+        feats = cratebuild.ALL_FEATURES if w.get("features") != "f0" else ["std"]
+        nostd = prop == "C15"
+        if nostd:
+            vc = verdict.VerdictCrate("replay-v", ["serde", "arbitrary"], default_features=False, no_std=True,
+                                      extra_deps='serde = { version = "1.0.150", default-features = false, features = ["derive", "alloc"] }\narbitrary = { version = "1.3.0" }\n')
+        else:
+            vc = verdict.VerdictCrate("replay-v", feats, extra_deps=FULL_DEPS if "serde" in feats else "")
+        body = w["module_text"] or ""
+        # module_text is `pub mod <id> { ... }`: strip the wrapper
+        inner = body[body.index("{") + 1: body.rindex("}")] if body.strip().startswith("pub mod") else body
+        case = verdict.Case("replayed", inner, "UNSPECIFIED", w.get("input") or "")
+        out, info = verdict.run_verdicts(vc, [case], log=log)
+        print("rustc verdict now: %s %s" % (out["replayed"]["verdict"], json.dumps(out["replayed"]["errors"])[:600]))
+        print("recorded: observed=%s expected=%s" % (w.get("observed"), w.get("expected")))
+        exp = w.get("expected")
+        now = out["replayed"]["verdict"]
+        if (exp == "MUST_REJECT" and now == "accepted") or (exp == "MUST_ACCEPT" and now == "rejected"):
+            print("VIOLATION property=%s replay=%s" % (prop, path))
+            return 1
+        return 0
+    if kind == "generated-test":
+        print("generated-test witness: program below; run `cargo test` on it with nutype from /repo\n" + (w.get("module_text") or ""))
+        return 0
     return 2
